@@ -26,6 +26,12 @@ type mutant struct {
 	Old      string `json:"old"`
 	New      string `json:"new"`
 	Note     string `json:"note"`
+	// More: further edits (possibly in other files) applied together with the first
+	More []struct {
+		File string `json:"file"`
+		Old  string `json:"old"`
+		New  string `json:"new"`
+	} `json:"more"`
 }
 
 func main() {
@@ -71,6 +77,26 @@ func main() {
 			os.Exit(4)
 		}
 		overlay = map[string][]byte{path: []byte(strings.Replace(string(src), mu.Old, mu.New, 1))}
+		for _, e := range mu.More {
+			f := e.File
+			if f == "" {
+				f = mu.File
+			}
+			pth := filepath.Join(*repo, f)
+			cur, ok := overlay[pth]
+			if !ok {
+				cur, err = os.ReadFile(pth)
+				if err != nil {
+					fmt.Println("MUTANT-SKIP", mu.ID, err)
+					os.Exit(4)
+				}
+			}
+			if strings.Count(string(cur), e.Old) != 1 {
+				fmt.Printf("MUTANT-SKIP %s: additional old text occurs %d times in %s\n", mu.ID, strings.Count(string(cur), e.Old), f)
+				os.Exit(4)
+			}
+			overlay[pth] = []byte(strings.Replace(string(cur), e.Old, e.New, 1))
+		}
 		*prop = mu.Property
 	}
 	p, err := core.Load(*repo, overlay, *goarch)
